@@ -194,7 +194,7 @@ type behaviour struct {
 	segs  [][]byte // for kind raw: plaintext pieces are not used; cut positions into the ciphertext in k… (see segments)
 	cuts  []int
 	delay time.Duration
-	delay2 time.Duration
+	after chan struct{}
 }
 
 type peer struct {
@@ -290,8 +290,13 @@ func (p *peer) act(c net.Conn, pc *peerCipher, b behaviour) bool {
 		io.Copy(io.Discard, c)
 		return false
 	case "late":
-		// answer only after the client's receive time-out has passed
-		time.Sleep(b.delay2)
+		// answer only after the client's call has returned (the harness closes b.after then); never by sleeping
+		if b.after != nil {
+			select {
+			case <-b.after:
+			case <-time.After(10 * time.Second):
+			}
+		}
 		ct := enc(frameBytes(b.items, true, now.Unix(), int32(now.Nanosecond())))
 		if _, err := c.Write(ct); err != nil {
 			return false
